@@ -2,6 +2,7 @@ package props
 
 import (
 	"fmt"
+	"github.com/hashicorp/hcl-lang/schema"
 	"github.com/zclconf/go-cty/cty"
 	"regexp"
 	"sort"
@@ -761,4 +762,159 @@ func oracleTokenCallArgs(c *caseCtx, q core.Query, r core.Result) {
 		}
 		return nil
 	})
+}
+
+// governedMaps collects the object literals interpreted as maps: by a Map constraint or
+// by an any-expression / literal type of a map type, reached through collection constraints.
+type governedMap struct {
+	oc   *hclsyntax.ObjectConsExpr
+	elem cty.Type // type every item value is read with
+}
+
+func governedMaps(e hclsyntax.Expression, c schema.Constraint, depth int, out *[]governedMap) {
+	if depth > 8 || c == nil {
+		return
+	}
+	var typeOf func(t cty.Type, e hclsyntax.Expression, d int)
+	typeOf = func(t cty.Type, e hclsyntax.Expression, d int) {
+		if d > 8 {
+			return
+		}
+		switch x := e.(type) {
+		case *hclsyntax.ObjectConsExpr:
+			if t.IsMapType() {
+				*out = append(*out, governedMap{x, t.ElementType()})
+				for _, it := range x.Items {
+					typeOf(t.ElementType(), it.ValueExpr, d+1)
+				}
+			}
+		case *hclsyntax.TupleConsExpr:
+			if t.IsListType() || t.IsSetType() {
+				for _, el := range x.Exprs {
+					typeOf(t.ElementType(), el, d+1)
+				}
+			}
+		}
+	}
+	switch cons := c.(type) {
+	case schema.AnyExpression:
+		typeOf(cons.OfType, e, depth)
+	case schema.LiteralType:
+		typeOf(cons.Type, e, depth)
+	case schema.Map:
+		if oc, ok := e.(*hclsyntax.ObjectConsExpr); ok {
+			// (only element constraints that read a value by its type)
+			switch ec := cons.Elem.(type) {
+			case schema.AnyExpression:
+				*out = append(*out, governedMap{oc, ec.OfType})
+			case schema.LiteralType:
+				*out = append(*out, governedMap{oc, ec.Type})
+			}
+			for _, it := range oc.Items {
+				governedMaps(it.ValueExpr, cons.Elem, depth+1, out)
+			}
+		}
+	case schema.List:
+		if tc, ok := e.(*hclsyntax.TupleConsExpr); ok {
+			for _, el := range tc.Exprs {
+				governedMaps(el, cons.Elem, depth+1, out)
+			}
+		}
+	case schema.Set:
+		if tc, ok := e.(*hclsyntax.TupleConsExpr); ok {
+			for _, el := range tc.Exprs {
+				governedMaps(el, cons.Elem, depth+1, out)
+			}
+		}
+	}
+}
+
+// oracleTokenMapItems: the items of one map literal are interpreted alike - if the
+// literal value of one item carries its literal token, the literal value (of the same
+// kind) of every other item does too, whatever its key looks like.
+func oracleTokenMapItems(c *caseCtx, q core.Query, r core.Result) {
+	if q.Kind != core.QSemTokens || r.Panic != nil || r.Err != nil {
+		return
+	}
+	toks, ok := r.Value.([]lang.SemanticToken)
+	if !ok {
+		return
+	}
+	pc := c.Env.PathCtx[q.Path]
+	if pc == nil || pc.Schema == nil || pc.Files[q.File] == nil || c.WS.FailPaths[q.Path] {
+		return
+	}
+	body, ok := pc.Files[q.File].Body.(*hclsyntax.Body)
+	if !ok {
+		return
+	}
+	if _, diags := hclsyntax.ParseConfig(pc.Files[q.File].Bytes, q.File, hcl.InitialPos); diags.HasErrors() {
+		return
+	}
+	type key struct {
+		t    lang.SemanticTokenType
+		s, e int
+	}
+	have := map[key]bool{}
+	for _, t := range toks {
+		have[key{t.Type, t.Range.Start.Byte, t.Range.End.Byte}] = true
+	}
+	var sites []valueSite
+	valueSites(body, model.EffRoot(pc.Schema), &sites)
+	for _, vs := range sites {
+		var maps []governedMap
+		governedMaps(vs.attr.Expr, vs.schema.Constraint, 0, &maps)
+		for _, gm := range maps {
+			oc := gm.oc
+			with, without := map[lang.SemanticTokenType]int{}, map[lang.SemanticTokenType][]hcl.Range{}
+			for _, it := range oc.Items {
+				// (an item whose key is a literal of another type than string - 7, true, null - is
+				// not a map item the library reads)
+				if kv, _ := it.KeyExpr.Value(nil); kv.IsKnown() && (kv.IsNull() || kv.Type() != cty.String) {
+					continue
+				}
+				var tt lang.SemanticTokenType
+				switch e := it.ValueExpr.(type) {
+				case *hclsyntax.LiteralValueExpr:
+					if e.Val.IsNull() {
+						continue
+					}
+					switch e.Val.Type() {
+					case cty.Number:
+						tt = lang.TokenNumber
+					case cty.Bool:
+						tt = lang.TokenBool
+					default:
+						continue
+					}
+				case *hclsyntax.TemplateExpr:
+					if !e.IsStringLiteral() {
+						continue
+					}
+					tt = lang.TokenString
+				default:
+					continue
+				}
+				// the literal must be of the element type itself (conversions are the library's business)
+				want := map[lang.SemanticTokenType]cty.Type{lang.TokenNumber: cty.Number, lang.TokenBool: cty.Bool, lang.TokenString: cty.String}[tt]
+				if gm.elem != cty.DynamicPseudoType && gm.elem != want {
+					continue
+				}
+				vr := it.ValueExpr.Range()
+				if have[key{tt, vr.Start.Byte, vr.End.Byte}] {
+					with[tt]++
+				} else {
+					without[tt] = append(without[tt], vr)
+				}
+			}
+			for tt, missing := range without {
+				if with[tt] > 0 {
+					c.Rep.Violation(c.witness("TOKEN-MAP-ITEM missing type="+string(tt), fmt.Sprintf("in the map literal at %s (value of %q) %d item value(s) carry a %s token, the value at %s of the same kind does not", fmtRange(oc.Range()), vs.attr.Name, with[tt], tt, fmtRange(missing[0])), q, nil))
+				}
+			}
+			if len(with) > 0 {
+				c.Rep.NonTrivial("map-items|" + fmt.Sprint(len(oc.Items) > 2))
+			}
+		}
+	}
 }
